@@ -6,7 +6,7 @@ use ippref::WMsg;
 use vkit::gen::{self, G1Cfg};
 use vkit::rng::Rng;
 
-pub const HOSTILE: [&str; 5] = ["tails", "grid", "withlang", "tokens", "mutations"];
+pub const HOSTILE: [&str; 6] = ["tails", "grid", "withlang", "tokens", "mutations", "bytes12"];
 
 pub struct Ctx {
     pub tier: String,
@@ -86,6 +86,8 @@ impl Ctx {
                 let k = if self.thorough() { 5 } else { 4 };
                 (0..=k).map(|l| 16u64.pow(l)).sum()
             }
+            // every tag x every single-byte value, and every tag x every byte doubled / followed by a quote, dot, NUL
+            "bytes12" => 256 * 256 * 5,
             "mutations" => {
                 if self.thorough() {
                     2_000_000
@@ -155,6 +157,17 @@ impl Ctx {
                 v.push(0x03);
                 (v, format!("withlang tag={tag:#04x} L={l} inner=({l1},{l2})"))
             }
+            "bytes12" => {
+                let (tag, body) = bytes12_params(idx);
+                let mut v = gen::HDR.to_vec();
+                v.push(0x04);
+                v.push(tag);
+                v.extend_from_slice(&[0, 1, b'b']);
+                v.extend_from_slice(&(body.len() as u16).to_be_bytes());
+                v.extend_from_slice(&body);
+                v.push(0x03);
+                (v, format!("bytes12 tag={tag:#04x} body={body:02x?}"))
+            }
             "tokens" => {
                 let mut i = idx;
                 let mut len = 0u32;
@@ -187,6 +200,20 @@ impl Ctx {
             _ => panic!("unknown family {fam}"),
         }
     }
+}
+
+/// (tag, 1- or 2-byte body)
+pub fn bytes12_params(idx: u64) -> (u8, Vec<u8>) {
+    let b = (idx % 256) as u8;
+    let tag = ((idx / 256) % 256) as u8;
+    let body = match idx / 65536 {
+        0 => vec![b],
+        1 => vec![b, b],
+        2 => vec![b, b'"'],
+        3 => vec![b'"', b],
+        _ => vec![b, 0xc2],
+    };
+    (tag, body)
 }
 
 pub fn withlang_params(idx: u64) -> (u8, u16, u16, u16) {
